@@ -86,6 +86,11 @@ func (r *MRepo) mustRetain(f *Fix, p GCPolicy, noOrphans bool) map[string]string
 		if !it.Manifest {
 			return
 		}
+		if _, has := r.Cas[n]; !has {
+			// the bytes of the manifest are gone (removed through the blob API): nothing can be reached through it
+			delete(keep, n)
+			return
+		}
 		if it.Config != "" {
 			walkBlob(it.Config, "config of "+n)
 		}
